@@ -1,5 +1,6 @@
 import Pyvsc.Drv.Solve
 import Pyvsc.Model.World
+import Pyvsc.Model.Paths
 /-!
 # Driver side for object-tree scenarios (ops `o.*`): C03, C07, C08, C17
 
@@ -139,6 +140,28 @@ def resolveObj (inst : Inst) (o : Nat) : List String → Except String Nat
           | none => throw s!"no object member {n}"
       | none => throw "no object"
 
+/-- the member tables of the instantiated tree as a `Paths.Members` shape (what `Model/Paths.lean` and the
+    theorems `Paths.*_inj` are about) -/
+partial def shapeOf (inst : Inst) (o : Nat) : Paths.Members :=
+  match inst.objs[o]? with
+  | none => .nil
+  | some oi => oi.kids.foldr (fun k acc =>
+      Paths.Members.cons k.1 (if k.2.1 then Paths.Shape.obj (shapeOf inst k.2.2) else Paths.Shape.scalar) acc) .nil
+
+/-- path resolution by the model (`Paths.Members.resolve`) from the root object -/
+def modelResolve (inst : Inst) (full : List String) : Option Nat :=
+  match full with
+  | [] => none
+  | p :: ps => (shapeOf inst 0).resolve 0 p ps
+
+/-- the driver's table walk and the model's `resolve` must name the same scalar -/
+def resolveChecked (inst : Inst) (o : Nat) (ps : List String) : Except String Nat := do
+  let i ← resolve inst o ps
+  let opath := match inst.objs[o]? with | some oi => oi.path | none => []
+  match modelResolve inst (opath ++ ps) with
+  | some i' => if i' = i then pure i else throw s!"path model mismatch: {opath ++ ps} -> driver {i}, model {i'}"
+  | none => throw s!"path model mismatch: {opath ++ ps} -> driver {i}, model none"
+
 /-- rewrite `{"k":"fld","path":[...]}` into `{"k":"fld","i":id}` -/
 partial def resolveJson (inst : Inst) (o : Nat) (j : Json) : Except String Json := do
   match j with
@@ -147,7 +170,7 @@ partial def resolveJson (inst : Inst) (o : Nat) (j : Json) : Except String Json 
     match j.getObjVal? "k", j.getObjVal? "path" with
     | .ok (Json.str "fld"), .ok p => do
         let ps ← (← p.getArr?).toList.mapM (·.getStr?)
-        pure (Json.mkObj [("k", Json.str "fld"), ("i", jNat (← resolve inst o ps)),
+        pure (Json.mkObj [("k", Json.str "fld"), ("i", jNat (← resolveChecked inst o ps)),
           -- reached through a list (an element by subscript, or the list's `size`): an expression object
           ("viaIndex", Json.bool ((ps.any fun c => c.endsWith "]") || ps.getLast? == some "size"))])
     | _, _ =>
@@ -217,6 +240,10 @@ def handleCall (j : Json) : Except String Json := do
   let randMode : List String → Bool → Bool := fun p dflt =>
     match rmHist.reverse.find? (fun t => t.1 == p) with | some t => t.2 | none => dflt
   let (tree, inst) ← (instantiate classes root [] false randMode 8).run {}
+  -- every scalar of the tree: the model's resolve of its path is its id (ids are construction order, depth first)
+  for (si, k) in inst.scalars.toList.zipIdx do
+    if modelResolve inst si.path != some k then
+      throw s!"path model mismatch: scalar {k} at {si.path} resolves to {modelResolve inst si.path}"
   let targetPath ← (← getA j "target").mapM (·.getStr?)
   let tid ← resolveObj inst 0 targetPath
   let tnode ← match findObjNode tree tid with | some n => pure n | none => throw "target not found"
